@@ -97,6 +97,27 @@ inline std::string json_escape(std::string const &s)
   return r;
 }
 
+inline bool &replay_mode()
+{
+  static bool r = false;
+  return r;
+}
+
+// a violation after which the process state cannot be trusted any more (abandoned fiber stacks
+// after a deadlock): report it in the format of the current mode and leave
+[[noreturn]] inline void fatal_violation(std::string const &cls, std::string const &detail)
+{
+  if (replay_mode())
+  {
+    std::printf("RESULT violation class=%s hash=%016llx detail=%s\n", cls.c_str(), 0ULL, json_escape(detail).c_str());
+    std::fflush(stdout);
+    std::_Exit(1);
+  }
+  std::printf("V %ld %s %s\n", current_run(), cls.c_str(), json_escape(detail).c_str());
+  std::fflush(stdout);
+  std::_Exit(0);
+}
+
 struct Outcome
 {
   bool violation = false;
@@ -236,6 +257,7 @@ inline int sim_main(int argc, char **argv)
       return 2;
     }
     detail::current_run() = static_cast<long>(p.run);
+    detail::replay_mode() = true;
     std::map<std::string, std::uint64_t> probes;
     Ctx ctx;
     ctx.trace = trace;
@@ -243,6 +265,13 @@ inline int sim_main(int argc, char **argv)
     ::alarm(run_timeout);
     detail::Outcome o = detail::run_plan(p, ctx);
     ::alarm(0);
+    if (!ctx.sched_out.empty())
+    {
+      std::string sl = "SCHED";
+      for (unsigned c : ctx.sched_out)
+        sl += " " + std::to_string(c);
+      std::puts(sl.c_str());
+    }
     if (o.violation)
     {
       std::printf(
@@ -265,6 +294,7 @@ inline int sim_main(int argc, char **argv)
   auto const t0 = clock::now();
   std::map<std::string, std::uint64_t> probes;
   std::set<std::uint64_t> distinct;
+  std::set<std::uint64_t> interleavings;
   std::uint64_t executed = 0, nontrivial = 0, steps = 0, events = 0, enum_runs = 0, enum_plans = 0;
   unsigned violations = 0;
   std::vector<std::string> samples;
@@ -284,6 +314,8 @@ inline int sim_main(int argc, char **argv)
     ++executed;
     steps += ctx.steps;
     events += ctx.events;
+    if (ctx.interleaving != 0)
+      interleavings.insert(ctx.interleaving);
     if (hashes)
       std::printf("H %llu %016llx\n", static_cast<unsigned long long>(i),
                   static_cast<unsigned long long>(o.hash));
@@ -362,6 +394,7 @@ inline int sim_main(int argc, char **argv)
   s += ",\"distinct_sampled\":" + std::to_string(distinct.size());
   s += ",\"distinct_sample_mod\":" + std::to_string(distinct_sample);
   s += ",\"steps\":" + std::to_string(steps);
+  s += ",\"distinct_interleavings\":" + std::to_string(interleavings.size());
   s += ",\"events\":" + std::to_string(events);
   s += ",\"enum_plans\":" + std::to_string(enum_plans);
   s += ",\"enum_runs\":" + std::to_string(enum_runs);
